@@ -145,7 +145,8 @@ def clause_collect_log(cases, ctx: Ctx):
             algo = collect.make_algo(c["algo"], E, Tn, c["gamma"], c["lam"])
             be0 = learnx.RecordingBackend()
             cb0 = LoggingCallback(be0, name="c19", alpha=alpha)
-            _DRV[sk] = (be0, eqx.filter_jit(lambda e, p, k: algo.reset(e, p, key=k, callback=cb0)), eqx.filter_jit(lambda st, k: algo.iteration(st, key=k, callback=cb0)))
+            _DRV[sk] = (be0, eqx.filter_jit(lambda e, p, k, algo=algo, cb0=cb0: algo.reset(e, p, key=k, callback=cb0)),
+                        eqx.filter_jit(lambda st, k, algo=algo, cb0=cb0: algo.iteration(st, key=k, callback=cb0)))
         be, reset_j, it = _DRV[sk]
         jax.effects_barrier()
         be.records.clear()
@@ -317,7 +318,7 @@ def clause_average(cases, ctx: Ctx):
         pol = ScriptedAC(env, np.asarray(c["script"]))
         k = (c["S"], c["A"], c["act_kind"], bool(c.get("tl")), len(c["script"]), c["num_episodes"], c["max_steps"], c["deterministic"])
         if k not in _AVG:
-            _AVG[k] = eqx.filter_jit(lambda e, p, keys: jax.vmap(lambda kk: average_reward(e, p, c["num_episodes"], c["max_steps"], c["deterministic"], key=kk))(keys))
+            _AVG[k] = eqx.filter_jit(lambda e, p, keys, ne=c["num_episodes"], ms=c["max_steps"], det=c["deterministic"]: jax.vmap(lambda kk: average_reward(e, p, ne, ms, det, key=kk))(keys))
         got = np.asarray(_AVG[k](env, pol, jax.vmap(jr.key)(jnp.asarray(c["keys"]))), dtype=np.float64)
         # reference: per-initial-state undiscounted return until the first terminal/truncated state or the cap
         T = np.asarray(c["T"])
